@@ -36,7 +36,7 @@ func TestMC(t *testing.T) {
 		// progress updates, OK and non-OK completions, shutdown at every point.
 		scenario("lifecycle",
 			config{budget: 5, maxProgress: 2, execSame: true},
-			config{budget: 7, maxProgress: 2, execSame: true}, 2, -1),
+			config{budget: 8, maxProgress: 2, execSame: true}, 2, -1),
 		// RPC errors and the error back-off, with clock jumps.
 		scenario("fault-rpc",
 			config{budget: 4, maxProgress: 1, maxJumps: 1, faults: []reply{rErr}},
@@ -52,7 +52,7 @@ func TestMC(t *testing.T) {
 		// Readiness failures (also after non-OK completions).
 		scenario("readiness",
 			config{budget: 4, maxProgress: 0, maxReadyFail: 2, noNone: true},
-			config{budget: 6, maxProgress: 1, maxReadyFail: 3}, 2, -1),
+			config{budget: 6, maxProgress: 2, maxReadyFail: 3}, 2, -1),
 		// The one-minute rule: scheduler unreachable during shutdown.
 		scenario("outage",
 			config{budget: 3, maxProgress: 0, maxJumps: 2, faults: []reply{rErr}},
